@@ -400,6 +400,82 @@ def hole_scenario(ctx, idx, seed, root):
     shutil.rmtree(root, ignore_errors=True)
 
 
+def oldest_scenario(ctx, idx, seed, root):
+    """the time base of the 'i' record and the 'C' previous-hash record depend on the SAVED positions only: the oldest-synced files
+    (alone in their stripes, optionally the last ones carrying the rehash mark) are deleted after newer files were synced at a later
+    clock (more than the 8 s granularity of the info time); the save that drops their positions must be reproduced byte for byte by
+    a rewrite, and must not keep a previous hash that no saved block refers to."""
+    import random
+    rng = random.Random(seed)
+    nd = rng.choice([2, 2, 3])
+    hs = rng.choice([16, 16, 8])
+    A = L.Array(root, ctx.tool, ctx.shim, ndisk=nd, npar=rng.choice([1, 2]), hashsize=hs, ncontent=2)
+    T = 1500000000 + rng.randrange(0, 2 ** 28)
+    rehash = rng.random() < 0.6
+    h1, h2 = rng.sample(['--test-force-murmur3', '--test-force-spooky2'], 2)
+    replay = {'kind': 'oldest', 'seed': seed, 'rehash': rehash}
+    old = []
+    # 1) the old files: more blocks than anything another disk holds at that time, so that some stripes are theirs alone
+    od = rng.randrange(nd)
+    for j in range(rng.choice([1, 2])):
+        sub = b'A_old%d' % j
+        L.write_file(A.dpath(od, sub), rng.choice([5000, 6144, 8000, 9216]), rng)
+        old.append((od, sub))
+    alone = rng.random() < 0.65        # only one disk holds files: after the deletion nothing is left to process, the state is saved once
+    if not alone and rng.random() < 0.4:
+        d2 = (od + 1) % nd
+        L.write_file(A.dpath(d2, b'A_old_other'), 1024, rng)     # a short old file on another disk: shares stripe 0 only
+        old.append((d2, b'A_old_other'))
+    hopt = [h1]
+    steps = []
+    A.run(hopt + ['sync'], now=T)
+    check_saved(ctx, A, T, 'O%d_0_sync' % idx, replay, hopt)
+    if rehash:
+        T += rng.randrange(8, 100)
+        hopt = [h2]
+        loaded = A.content(0)
+        A.run(hopt + ['rehash'], now=T)
+        history_check(ctx, loaded, A.content(0), 'other', 'O%d_1_rehash' % idx, replay, hs)
+        check_saved(ctx, A, T, 'O%d_1_rehash' % idx, replay, hopt)
+    # 2) newer files everywhere, synced several time granules later
+    T += rng.choice([9, 16, 100, 5000, 86400])
+    for d in ([od] if alone else range(nd)):
+        # short files on the other disks: the last stripes of the old files stay theirs alone
+        for j in range(rng.randrange(1, 3) if d == od else 1):
+            L.write_file(A.dpath(d, b'N_new%d' % j), rng.choice([1, 1024, 1500, 3000]) if d == od else rng.choice([1, 1024, 2000]), rng)
+    loaded = A.content(0)
+    A.run(hopt + ['sync'], now=T)
+    history_check(ctx, loaded, A.content(0), 'sync', 'O%d_2_sync' % idx, replay, hs)
+    check_saved(ctx, A, T, 'O%d_2_sync' % idx, replay, hopt)
+    # 3) the old files go; the save drops their positions (and with them the oldest time / the last rehash marks)
+    for d, sub in old:
+        os.remove(A.dpath(d, sub))
+    T += rng.choice([9, 50, 3000])
+    args = rng.choice([['sync'], ['sync'], ['sync', '-B', '1'], ['sync', '-S', '1000', '-B', '1']])
+    loaded = A.content(0)
+    rc, out = A.run(hopt + args, now=T)
+    with ctx.lock:
+        ctx.stats['commands'] += 4
+        ctx.stats['oldest_histories'] = ctx.stats.get('oldest_histories', 0) + 1
+    tag = 'O%d_3_%s' % (idx, 'sync' if len(args) == 1 else 'partial')
+    after = A.content(0)
+    history_check(ctx, loaded, after, 'sync', tag, replay, hs)
+    try:
+        pa = CT.parse(after, 16)
+        marked = any(v and v['rehash'] for v in pa['info'])
+        if pa['prevhash'] and not marked:
+            ctx.viol(tag + '_stale_prevhash', '%s: the saved content file holds a previous-hash (C) record but no saved position carries the rehash mark: the '
+                     'reloaded state has a rehash in progress that no block refers to' % tag, dict(replay, content_hex=after.hex()))
+        times = [v['time'] & ~7 for v in pa['info'] if v]
+    except Exception as e:
+        ctx.viol(tag + '_parse', '%s: independent decoder fails on the saved file: %r' % (tag, e), dict(replay, content_hex=(after or b'').hex()))
+    check_saved(ctx, A, T, tag, replay, hopt)
+    T += 20
+    A.run(hopt + ['sync'], now=T)
+    check_saved(ctx, A, T, 'O%d_4_sync' % idx, replay, hopt)
+    shutil.rmtree(root, ignore_errors=True)
+
+
 BIGFLAGS = ['--test-skip-fallocate', '--test-io-cache', '1']
 
 
@@ -1113,6 +1189,8 @@ def replay_case(path):
     kind = rp.get('kind')
     if kind == 'scenario':
         scenario(ctx, 0, rp['seed'], rp['steps'], os.path.join(root, 'a'))
+    elif kind == 'oldest':
+        oldest_scenario(ctx, 0, rp['seed'], os.path.join(root, 'a'))
     elif kind == 'big':
         big_scenario(ctx, 0, rp['seed'], os.path.join(root, 'a'))
     elif kind == 'uuid':
@@ -1213,6 +1291,8 @@ def main(tier, replay=None):
             jobs.append(ex.submit(scenario, ctx, i, rng.getrandbits(48), steps, os.path.join(base, 'A%d' % i)))
         for i in range(60 if thorough else 16):
             jobs.append(ex.submit(hole_scenario, ctx, i, rng.getrandbits(48), os.path.join(base, 'H%d' % i)))
+        for i in range(40 if thorough else 10):
+            jobs.append(ex.submit(oldest_scenario, ctx, i, rng.getrandbits(48), os.path.join(base, 'OL%d' % i)))
         for i in range(12 if thorough else 4):
             jobs.append(ex.submit(big_scenario, ctx, i, rng.getrandbits(48), os.path.join(base, 'BG%d' % i)))
         for i in range(24 if thorough else 6):
